@@ -8,7 +8,7 @@ from engines import runner
 from engines.facts import Program
 from engines.registry import RULES
 
-ZERO_OK = {"G1", "G2", "G9", "G12", "A8", "A11", "E5", "E6", "F20", "F22", "F23", "F24", "F26"}
+ZERO_OK = {"G1", "G2", "G9", "G12", "B8", "A8", "A11", "E5", "E6", "F20", "F22", "F23", "F24", "F26"}
 out = {}
 meas = {}
 for cfg in runner.THOROUGH:
